@@ -454,13 +454,13 @@ def run(tier, seed):
     # fault points
     fault_jobs = []
     ktot = {}
-    for kind in ["tempo-full", "tempo-dk2", "mf1"] + (["mf2"] if tier == "thorough" else []):
+    for kind in ["tempo-full", "tempo-dk2", "mf1", "mf2"]:
         for subdiv in ([None] if tier == "quick" or kind.startswith("mf") else [None, 2]):
             K = count_invocations(kind, subdiv)
             ktot[f"{kind}/subdiv={subdiv}"] = K
             for k in range(1, K + 1):
                 fault_jobs.append((kind, subdiv, (k,)))
-                if subdiv is None:
+                if subdiv is None and (kind != "mf2" or tier == "thorough"):
                     fault_jobs.append((kind, subdiv, (k,), "BaseException"))
             if tier == "thorough" and subdiv is None:
                 for k1 in range(1, K + 1, 3):
